@@ -33,8 +33,8 @@ def mc_cfg(n, chunks):
 CONSTANTS
   N = %d
   Chunks = {%s}
-INVARIANTS TypeOK FrameInv TraversalOnce FullTraversalOnce
-PROPERTIES StepClauses Adjacent AutoClauses SeekClauses
+INVARIANTS TypeOK TraversalOnce FullTraversalOnce
+PROPERTIES StepClauses Adjacent AutoClauses SeekClauses GrowClauses
 CHECK_DEADLOCK FALSE
 """ % (n, ", ".join(str(c) for c in chunks))
 
